@@ -233,6 +233,8 @@ func main() {
 		{{S("c", 1), G("b")}, {G("a"), S("d", 1)}},
 		{{D("a")}, {S("a", 1)}, {P("a"), G("b")}},
 		{{S("c", 2)}, {S("d", 2)}, {G("a")}},
+		{{S("a", 2)}, {S("a", 1)}, {G("a")}},
+		{{S("a", 3), D("b")}, {S("b", 2), G("a")}},
 	}
 	var scs []*mc.Scenario
 	for _, p := range progs {
